@@ -181,6 +181,7 @@ func C12(rep *ev.Reporter, tier string) {
 rule Highest 'single "quoted" desc' salience 2147483647 { when F.I2 == 1 then F.I2 = 2; }
 rule Ünïcode_名前 "tab\there \"q\" é漢😀" salience 0x10 { when F.I2 == 2 then F.I2 = 3; F.S = "é漢😀\x00end"; }
 rule NoDescNoSal { when F.I2 == 3 then Complete(); }
+rule EmptyDesc "" salience 1 { when F.I2 > 98 then F.I2 = 0; }
 rule OctalSal salience -017 { when F.I2 > 99 then F.I2 = 0; }`})
 	if tier == "thorough" {
 		n := 0
